@@ -254,7 +254,7 @@ fn c03_child(tier: &str) -> i32 {
         if sizes.iter().any(|z| *z > 100_000) {
             s.goal("message-of-more-than-100KB-over-a-real-socket");
         }
-        match c19::raw_wire_case(*rt, sizes, *drain, *small, None, false) {
+        match c19::raw_wire_case(*rt, sizes, *drain, *small, None, 0) {
             Ok(n) => {
                 s.steps(sizes.len() as u64);
                 s.pass(xplore::H64::new().u(i).u(n).get())
@@ -300,6 +300,38 @@ fn goodbye_sweep(tier: &str, class_prefix: &str) -> xplore::Stats {
     })
 }
 
+/// Child of C12: the calls of a generated proxy method over the zlink-tokio / zlink-smol transports,
+/// a raw reader at the other end: sequences of calls with arguments of 300 B .. 150 KB, and sequences
+/// in which one call is abandoned while its write is pending and further calls follow.
+fn c12_child(tier: &str) -> i32 {
+    let cfg = Config { max_wall: std::time::Duration::from_secs(tier_pick(tier, 60, 900)), threads: 8, ..Default::default() };
+    let ab: Vec<_> = c19::raw_wire_abandon_cases(tier == "thorough").into_iter().filter(|c| c.5 == 2).collect();
+    let plain: Vec<_> = c19::raw_wire_cases(2).into_iter().filter(|c| c.2 == 0 || c.2 == usize::MAX).collect();
+    let n = (ab.len() + plain.len()) as u64;
+    let st = sweep("generated-proxy-method-over-real-sockets/tokio+smol", n, &cfg, |i, s| {
+        let i = i as usize;
+        let (rt, sizes, drain, small, abandon) = if i < ab.len() {
+            s.goal("proxy-call-abandoned-then-another-proxy-call");
+            let c = &ab[i];
+            (c.0, c.1.clone(), c.2, c.3, Some(c.4))
+        } else {
+            s.goal("proxy-calls-of-several-socket-writes");
+            let c = &plain[i - ab.len()];
+            (c.0, c.1.clone(), c.2, c.3, None)
+        };
+        match c19::raw_wire_case(rt, &sizes, drain, small, abandon, 2) {
+            Ok(n) => {
+                s.steps(sizes.len() as u64);
+                s.pass(xplore::H64::new().u(i as u64).u(n).get())
+            }
+            Err((c, d)) => s.fail(c.replace("jsoneq:", "proxy:").replace("sockets:", "proxy:"), format!("{rt:?}: {d}"), json!({"raw_wire_case": [format!("{rt:?}"), sizes, if drain == usize::MAX { json!("all") } else { json!(drain) }, small, abandon.map(|a| json!([a.0, a.1])).unwrap_or(Value::Null), 2]})),
+        }
+    });
+    eprintln!("[C12 child] {} cases, {} violation classes, {:.1}s", st.evals, st.violations.len(), st.wall);
+    println!("{}", xplore::report::child_json(&[st], "C19"));
+    0
+}
+
 fn c01_child(tier: &str) -> i32 {
     let st = goodbye_sweep(tier, "framing:");
     eprintln!("[C01 child] {} cases, {} violation classes, {:.1}s", st.evals, st.violations.len(), st.wall);
@@ -313,8 +345,11 @@ fn abandoned_sends_sweep(tier: &str, class_prefix: &str) -> xplore::Stats {
     sweep("raw-wire-bytes/abandoned-sends/tokio+smol", cases.len() as u64, &cfg, |i, s| {
         let (rt, sizes, drain, small, ab, chains) = &cases[i as usize];
         s.goal("send-abandoned-then-more-messages-over-a-real-socket");
-        if *chains {
+        if *chains == 1 {
             s.goal("chain-send-abandoned-then-another-chain");
+        }
+        if *chains == 2 {
+            s.goal("proxy-call-abandoned-then-another-proxy-call");
         }
         match c19::raw_wire_case(*rt, sizes, *drain, *small, Some(*ab), *chains) {
             Ok(n) => {
@@ -418,7 +453,7 @@ fn replay(path: &str) -> i32 {
                 let sizes: Vec<usize> = c[1].as_array().map(|a| a.iter().map(|x| x.as_u64().unwrap_or(300) as usize).collect()).unwrap_or_default();
                 let drain = c[2].as_u64().map(|d| d as usize).unwrap_or(usize::MAX);
                 let abandon = c.get(4).and_then(|a| a.as_array()).map(|a| (a[0].as_u64().unwrap_or(0) as usize, a[1].as_u64().unwrap_or(1) as usize));
-                let r = c19::raw_wire_case(rt, &sizes, drain, c[3].as_bool().unwrap_or(true), abandon, c.get(5).and_then(|x| x.as_bool()).unwrap_or(false));
+                let r = c19::raw_wire_case(rt, &sizes, drain, c[3].as_bool().unwrap_or(true), abandon, c.get(5).map_or(0, |x| x.as_u64().unwrap_or(x.as_bool().unwrap_or(false) as u64) as u8));
                 (vec![format!("raw wire case {c}")], Ok(match r {
                     Ok(_) => Verdict::Pass(0),
                     Err((c, d)) => Verdict::fail(c, d),
@@ -512,6 +547,7 @@ fn main() {
         Some("c03-child") => c03_child(&tier),
         Some("c01-child") => c01_child(&tier),
         Some("c02-child") => c02_child(&tier),
+        Some("c12-child") => c12_child(&tier),
         Some("c08-child") => realsrv_child(&tier, false),
         Some("c10-real-child") => c10_real_child(&tier),
         Some("c18-child") => realsrv_child(&tier, true),
